@@ -65,6 +65,7 @@ CHECKS = {
         "claim": "history and writer-fault simulation of text.Encoder: a long-lived encoder renders tape-generated values of the aircraftlib schema (all numeric kinds, text and data with quotes, backslashes, control and high bytes, enums in and out of range, unions, groups, nested lists, defaults) for up to 10^5 consecutive calls and must give byte-identical output to a fresh encoder at every step; each rendering is parsed by an independent parser for the text format and every recovered field must equal what was set through the generated accessors; a failing Write must surface as an error and leave only a prefix of the rendering",
         "engine": "textsim", "level": "exploration",
         "budget": {"quick": 25, "thorough": 600},
+        "min_runs": {"quick": 80000},
         "rule": RULE_TEXT,
         "faults": ["write_err"],
     },
@@ -72,6 +73,7 @@ CHECKS = {
         "claim": "a hostile peer drives some legal traffic (so that the tables are non-empty) and then emits 1-3 hostile messages per run out of 22 kinds: Returns / Finishes / Releases / Disembargoes for unknown, reused or finished ids, calls to unknown imports and finished answers, descriptors naming non-existent exports and imports, odd transforms, sendResultsTo=yourself, unknown union discriminants, unsupported level-2+ messages, unsolicited Unimplemented and Abort, odd payload contents, and bit flips / hostile pointer words inside valid Calls; local callers keep calls in flight; no panic, no process abort, no deadlock, every local call completes, and if the connection is still up afterwards a well-formed Bootstrap must be answered (not wedged); Close returns and leaks nothing",
         "engine": "rpcsim", "level": "exploration",
         "budget": {"quick": 30, "thorough": 900},
+        "min_runs": {"quick": 15000},
         "rule": RULE_SCHED,
         "faults": ["hostile_message", "ctx_cancel"],
         "params": {"mode": "hostile"},
@@ -80,6 +82,7 @@ CHECKS = {
         "claim": "two-stage per-operation fault sweep made possible by deterministic replay: each scenario (a seed of the C06/C07 workload) is first run fault-free to count its transport operations and steps, then re-run once for every NewMessage / send / receive index with each fault kind (error on NewMessage, error on send, stalled send, receive error, EOF) and, at up to 60 evenly spaced steps, with Close, Close twice followed by new operations, and cancellation of every outstanding call; every run must finish all its operations, Close must return, no goroutine started by the connection may survive, no mutex nor the sender lock may stay held, nothing may panic",
         "engine": "rpcsim", "level": "fault_enumeration",
         "budget": {"quick": 40, "thorough": 1200},
+        "min_runs": {"quick": 60},
         "rule": "each evaluation is one base scenario (seed) together with its complete sweep: every transport-operation index x fault kind, and sampled steps x {close, close twice, cancel}; non-trivial = at least one fault fired; distinct = distinct hashes of the base schedule combined with the schedules of all its faulted re-runs; coverage.probes.sweep_cases counts the individual faulted runs",
         "faults": ["newmsg_err", "send_err", "send_stall", "recv_err", "recv_eof", "short_write", "write_err_n0", "read_err", "eof", "close", "close_again", "cancel"],
         "params": {"mode": "sweep"},
@@ -90,6 +93,7 @@ CHECKS = {
         "claim": "same simulated sessions as C06 biased to capability traffic (the same capability sent repeatedly, partial Releases, Finish with releaseResultCaps before or after the Return, Returns with releaseParamCaps, local AddRef/Release of imports racing with newly arriving references); conservation is checked from the wire history: peer reference counts never go negative, a Release never exceeds the references actually delivered, application capabilities are not released while the peer holds a reference and the connection is open, after an orderly wind-down every table is empty and every capability released, and after Close each capability has been released exactly once",
         "engine": "rpcsim", "level": "exploration",
         "budget": {"quick": 30, "thorough": 900},
+        "min_runs": {"quick": 12000},
         "rule": RULE_SCHED,
         "faults": ["ctx_cancel", "app_release"],
         "params": {"mode": "caps"},
@@ -98,6 +102,7 @@ CHECKS = {
         "claim": "seeded search over schedules and message timings of one real rpc.Conn against a spec-following model peer (Bootstrap, Calls to imports and to promised answers that have or have not returned, Finish before or after Return, Release) and 0-2 local caller tasks; a protocol monitor over the two-directional message history checks exactly one Return per question with the content the application produced, exactly-once resolution of local calls with the peer's result, no question id reuse before its Finish, and per-target delivery order",
         "engine": "rpcsim", "level": "exploration",
         "budget": {"quick": 30, "thorough": 900},
+        "min_runs": {"quick": 12000},
         "rule": RULE_SCHED,
         "faults": ["ctx_cancel", "app_release"],
         "params": {"mode": "conform"},
@@ -106,6 +111,7 @@ CHECKS = {
         "claim": "fault injection on stored / in-flight bytes between a writer node and a reader node: bit flips, boundary-valued hostile pointer words (offsets onto the last word / one past the end / before the start, huge counts, composite tags with zero-size elements and negative counts, far pointers to missing segments, bad landing pads, unknown pointer kinds), torn, dropped, duplicated and swapped segments, tampered segment tables and faulty arenas, delivered through every unmarshal/decoder path; 1-3 readers (sequentially, or concurrently under the scheduler) apply every read-side operation; no panic, no process abort, no hang, and every byte slice handed out lies inside the supplied bytes (segments have cap==len)",
         "engine": "readsim", "level": "exploration",
         "budget": {"quick": 25, "thorough": 600},
+        "min_runs": {"quick": 200000},
         "rule": RULE_READ,
         "faults": ["bitflip", "word_smash", "tag_smash", "truncate_segment", "segment_drop", "segment_dup", "segment_swap", "segtable_tamper", "arena_fault"],
     },
@@ -113,6 +119,7 @@ CHECKS = {
         "claim": "hand-assembled cyclic and aliasing pointer graphs (through struct fields, composite-list elements and pointer-list elements) are read by 1-4 concurrent readers with a schedule point before every atomic operation of the read budget; (a) the true size of everything handed out never exceeds T, (b) per-object charges calibrated in a sequential prelude are at least the true size and the concurrent history is linearizable (porcupine) against the sequential budget, including the final value of the limit, (c) no dereference succeeds deeper than D, (d) deep copy, Canonicalize, Equal and CopyFrom on a cyclic chain consume budget bounded by D rather than T",
         "engine": "readsim", "level": "exploration",
         "budget": {"quick": 25, "thorough": 600},
+        "min_runs": {"quick": 3000},
         "rule": RULE_READ,
         "faults": ["pointer_rewire (hand-assembled cycles)"],
     },
@@ -120,6 +127,7 @@ CHECKS = {
         "claim": "seeded search over builder histories on simulated allocators (exact-fit, dirty spare capacity, forced new segments, one injected allocation failure) and the library's own arenas: after every few operations the whole tree is read back through the accessors and compared with a value-tree model, and at the end through Marshal/Unmarshal, MarshalPacked/UnmarshalPacked and Encoder->pipe->Decoder (packed or not, tape-chosen chunking, buffer reuse)",
         "engine": "buildsim", "level": "exploration",
         "budget": {"quick": 20, "thorough": 480},
+        "min_runs": {"quick": 300000},
         "rule": RULE_BUILD,
         "faults": ["alloc_fail", "exact_fit", "dirty_cap", "always_new_segment"],
     },
@@ -127,6 +135,7 @@ CHECKS = {
         "claim": "same histories as C04; the serialised bytes are parsed by an independent frame parser, validated by an independent implementation of the encoding spec (alignment, every pointer inside its segment, landing pads, list sizes, pairwise disjoint objects) and decoded by an independent decoder whose tree must equal the model exactly (so never-written bytes are zero even when spare capacity was dirty)",
         "engine": "buildsim", "level": "exploration",
         "budget": {"quick": 20, "thorough": 480},
+        "min_runs": {"quick": 300000},
         "rule": RULE_BUILD,
         "faults": ["alloc_fail", "exact_fit", "dirty_cap", "always_new_segment"],
     },
@@ -134,6 +143,7 @@ CHECKS = {
         "claim": "seeded search over histories in which builder nodes exchange subtrees (SetPtr across messages, SetRoot, CopyFrom and List.SetStruct with different section sizes, forced copies of list members, copies onto non-empty destinations, copies interrupted by an allocation failure) followed by mutations on both sides; both sides must keep equal to their own models, copied capabilities must occupy their own table entry holding their own reference (hooks shut down exactly once after all messages are reset)",
         "engine": "buildsim", "level": "exploration",
         "budget": {"quick": 20, "thorough": 480},
+        "min_runs": {"quick": 200000},
         "rule": RULE_BUILD,
         "faults": ["alloc_fail", "exact_fit", "dirty_cap", "always_new_segment"],
     },
@@ -141,6 +151,7 @@ CHECKS = {
         "claim": "replica invariant: for tape-chosen pairs of live subtrees across nodes (values reached by different allocation and copy histories, padded copies, re-encodings in other segment layouts, single-leaf mutations) capnp.Equal must agree with an independent implementation of the documented rules and be reflexive and symmetric; pairs on which the documented rules are silent are skipped, the all-pairs quantifier is sampled, not enumerated",
         "engine": "buildsim", "level": "exploration",
         "budget": {"quick": 20, "thorough": 480},
+        "min_runs": {"quick": 300000},
         "rule": RULE_BUILD,
         "faults": ["alloc_fail", "exact_fit", "dirty_cap", "always_new_segment"],
     },
@@ -148,6 +159,7 @@ CHECKS = {
         "claim": "replica invariant: for capability-free structs reached by the simulated histories, Canonicalize must produce a valid single-segment message that decodes to an equal value, equals an independent canonicaliser byte for byte, is idempotent, and is identical for re-encodings in other layouts and version-padded copies; structs reaching a capability must be rejected",
         "engine": "buildsim", "level": "exploration",
         "budget": {"quick": 20, "thorough": 480},
+        "min_runs": {"quick": 300000},
         "rule": RULE_BUILD,
         "faults": ["alloc_fail", "exact_fit", "dirty_cap", "always_new_segment"],
     },
@@ -155,6 +167,7 @@ CHECKS = {
         "claim": "per generated packed stream, every cut point (EOF at byte k; exhaustive for streams up to 512 bytes) and a read error are injected between packer and unpacker; one-shot Unpack, the streaming Reader (all read sizes, ReadWord, bufio sizes, chunkings, zero-length reads) and an independent implementation of the packing spec must agree on output and acceptability, truncation must surface as an error without invented bytes, and output is bounded by the spec",
         "engine": "streamsim", "level": "fault_enumeration",
         "budget": {"quick": 20, "thorough": 480},
+        "min_runs": {"quick": 100000},
         "rule": RULE_STREAM,
         "faults": ["eof_at", "read_err", "zero_read", "read_chunk"],
         "coverage_extra": {"explanation": "exhaustive is false for the batch as a whole: cut points are enumerated exhaustively per stream (see probes.streams_fully_enumerated and probes.cut_points_checked), streams themselves are sampled"},
@@ -163,6 +176,7 @@ CHECKS = {
         "claim": "per generated sequence of 1-5 messages written by the real Encoder (packed or not), every cut point of the byte stream (exhaustive up to 1 KiB) and a read error are injected; the real Decoder (with and without buffer reuse, several MaxMessageSize values, all chunkings) must return exactly the complete frames, io.EOF only at a frame boundary and an error anywhere else; hostile headers are spliced in and the allocation of Decode and Unmarshal is bounded with runtime.MemStats",
         "engine": "streamsim", "level": "fault_enumeration",
         "budget": {"quick": 20, "thorough": 480},
+        "min_runs": {"quick": 15000},
         "rule": RULE_STREAM,
         "faults": ["eof_at", "read_err", "hdr_tamper", "read_chunk"],
         "vlimit_kb": 2 * 1024 * 1024,
@@ -172,6 +186,7 @@ CHECKS = {
         "claim": "seeded search over schedules of 1-4 caller tasks against a real server.Server (every mutex acquisition and channel wake-up is a schedule point) with tape-chosen policies, ack/return timings, cancellations, pipelined calls on unreturned answers and shutdown while calls run; start order, ack gating, the concurrency cap, exactly-once completion with the implementation's own result, pipelined delivery order and shutdown semantics are checked at every event and over the recorded history",
         "engine": "srvsim", "level": "exploration",
         "budget": {"quick": 25, "thorough": 600},
+        "min_runs": {"quick": 50000},
         "rule": RULE_SCHED,
         "faults": ["ctx_cancel", "janitor_cancel"],
     },
@@ -179,6 +194,7 @@ CHECKS = {
         "claim": "seeded search over schedules of tasks issuing pipelined calls, Future.Client requests (same path repeatedly), calls through pipelined clients, Fulfill/Reject/Join (chains up to 3) and concurrent ReleaseClients on real capnp.Promise objects; every call must be delivered exactly once to the right party or fail legitimately, resolution may not return while a delivery to the PipelineCaller is in progress, result capabilities are released exactly once, and any blocked operation is reported as a deadlock with its wait-for set",
         "engine": "promsim", "level": "exploration",
         "budget": {"quick": 25, "thorough": 600},
+        "min_runs": {"quick": 60000},
         "rule": RULE_SCHED,
         "faults": ["ctx_precancelled"],
     },
@@ -186,6 +202,7 @@ CHECKS = {
         "claim": "seeded search over schedules (every lock acquisition in capability.go is a schedule point) and operation sequences on shared clients, weak references and client promises, including one Client used by two tasks at once, checked against a reference-count / resolution-chain model at every hook event and at the end of the run",
         "engine": "capsim", "level": "exploration",
         "budget": {"quick": 25, "thorough": 600},
+        "min_runs": {"quick": 100000},
         "rule": RULE_SCHED,
         "faults": [],
     },
